@@ -109,11 +109,14 @@ def quat_to_mat_np(q):
 
 def geom_table(model):
   """Collidable primitive geoms of a model genome:
-  (link index, type, size, local pos, local quat, contype, conaffinity)."""
+  (link index in the loaded system, type, size, local pos, local quat,
+  contype, conaffinity)."""
   out = []
-  for i, l in enumerate(model['links']):
+  order = modelgen.emission_order(model)
+  for li, i in enumerate(order):     # li = link index in the loaded system
+    l = model['links'][i]
     for g in l['geoms']:
-      out.append((i, g['type'], list(g['size']), np.asarray(g['pos'], float),
+      out.append((li, g['type'], list(g['size']), np.asarray(g['pos'], float),
                   np.asarray(g['quat'], float), g['contype'], g['conaffinity']))
   return out
 
